@@ -47,7 +47,7 @@ struct outmsg { struct outmsg *next; int is_event; uint32_t seq; size_t len; uns
 struct sconn {
 	uint32_t magic; int id; qb_ipcs_connection_t *c;
 	int lc; int created_disconnected; int app_refs; int client_refs; /* app_refs = all references the application holds; client_refs = those taken by OP_REF */ int closed_calls; int closed_retry_left; int backoff_left;
-	uint32_t ev_seq; struct outmsg *out_head, *out_tail; int timer_armed; int dead;
+	uint32_t ev_seq; struct outmsg *out_head, *out_tail; int timer_armed; int dead; int refused;
 	struct sconn *next;
 };
 static struct sconn *conns; static int nconn_ids;
@@ -108,9 +108,10 @@ static int32_t cb_accept(qb_ipcs_connection_t *c, uid_t uid, gid_t gid)
 	int rc = 0; uid_t au = 0; gid_t ag = 0; mode_t am = 0; int use = 0;
 	if (cfg.accept_policy == 1) rc = bed_accept_decision(uid, gid, &au, &ag, &am, &use);
 	else if (cfg.accept_policy == 2 && vp_chance(&srng, 1, 6)) rc = -EACCES;
-	bed_log(L_ACCEPT, (uint64_t)(uintptr_t)c, uid, gid, rc, nconn_ids, NULL);
+	char pidtxt[32] = ""; { struct qb_ipcs_connection_stats cst; if (qb_ipcs_connection_stats_get(c, &cst, 0) == 0) snprintf(pidtxt, sizeof pidtxt, "%d", (int)cst.client_pid); }
+	bed_log(L_ACCEPT, (uint64_t)(uintptr_t)c, uid, gid, rc, nconn_ids, pidtxt);
 	struct sconn *sc = calloc(1, sizeof *sc);
-	sc->magic = 0xC0FFEE; sc->id = nconn_ids++; sc->c = c; sc->lc = LC_ACCEPTED; sc->next = conns; conns = sc;
+	sc->magic = 0xC0FFEE; sc->id = nconn_ids++; sc->c = c; sc->lc = LC_ACCEPTED; sc->next = conns; conns = sc; sc->refused = rc != 0;
 	qb_ipcs_context_set(c, sc);
 	if (rc == 0 && use) qb_ipcs_connection_auth_set(c, au, ag, am);
 	return rc;
@@ -135,6 +136,7 @@ static int32_t cb_msg(qb_ipcs_connection_t *c, void *data, size_t size)
 	if (size >= TP_REQ_MIN) { op = q->op; seq = q->seq; if ((size_t)q->plen + TP_REQ_MIN <= size) { ck = tp_cksum(q->payload, q->plen); ckok = ck == q->cksum; } }
 	bed_log(L_MSG, (uint64_t)(uintptr_t)c, seq, (int64_t)size, ckok, size >= sizeof(struct qb_ipc_request_header) ? q->hdr.size : -1, NULL);
 	if (!sc) { sviol("ipcs:msg-for-unknown-connection", c, "msg %p", (void *)c); return 0; }
+	if (sc->refused) sviol("c05:message-from-refused-peer", c, "size %zu", size);
 	if (sc->lc != LC_CREATED) sviol(sc->lc == LC_ACCEPTED ? "ipcs:msg-before-created" : "ipcs:msg-after-closed", c, "state %d", sc->lc);
 	if (size < TP_REQ_MIN) return 0;
 	if (sc->backoff_left > 0) { sc->backoff_left--; }
